@@ -160,7 +160,7 @@ func genHistory(t *tape.Tape, nFiles int, thorough bool, passes []string) []C07P
 					op.Noise = 1 + t.Pick(2)
 				}
 				if t.Bool(1, 3) {
-					op.ArgForm = t.Int(1, 3)
+					op.ArgForm = t.Int(1, 4)
 				}
 				op.Symlinks = t.Bool(1, 6)
 				if t.Bool(1, 6) {
@@ -319,6 +319,14 @@ func (r *c07run) argForm(dir string, form int) string {
 		out = "./" + rel
 	case 3:
 		out = dir + "/"
+	case 4:
+		// the directory is reached through a symbolic link (current -> releases/v3)
+		link := filepath.Join(r.ctx.Dir, fmt.Sprintf("current%d", r.seq))
+		os.Remove(link)
+		if err := os.Symlink(dir, link); err == nil {
+			out = link
+			r.out.Faults["directory-named-through-symlink"]++
+		}
 	}
 	if form != 0 {
 		r.out.Faults["arg-form"]++
